@@ -70,10 +70,10 @@ func epsSM2() []*epT {
 				x.g("sm2.VerifyASN1WithSM2", func() { ok = sm2.VerifyASN1WithSM2(&kr.SM2EE().PublicKey, sm2UID, msgShort, in) })
 				return
 			}},
-		{name: "sm2.VerifyASN1[NIST P-256 key]", small: true, fast: true, der: true,
+		{name: "sm2.VerifyASN1[NIST-P256-key]", small: true, fast: true, der: true,
 			seeds: []seedT{nistSig("sm2sig-nist")},
 			call: func(x *cx, in []byte) (ok bool) {
-				x.g("sm2.VerifyASN1[NIST P-256 key]", func() { ok = sm2.VerifyASN1(&kr.NIST().PublicKey, hash, in) })
+				x.g("sm2.VerifyASN1[NIST-P256-key]", func() { ok = sm2.VerifyASN1(&kr.NIST().PublicKey, hash, in) })
 				return
 			}},
 		{name: "sm2.RecoverPublicKeysFromSM2Signature", small: true, fast: true, der: true,
@@ -100,34 +100,34 @@ func epsSM2() []*epT {
 				})
 				return
 			}},
-		{name: "sm2.PrivateKey.Decrypt[ASN1 opts]", small: true, fast: true, der: true,
+		{name: "sm2.PrivateKey.Decrypt[ASN1-opts]", small: true, fast: true, der: true,
 			seeds: []seedT{ctASN1},
 			call: func(x *cx, in []byte) (ok bool) {
-				x.g("sm2.PrivateKey.Decrypt[ASN1 opts]", func() {
+				x.g("sm2.PrivateKey.Decrypt[ASN1-opts]", func() {
 					_, err := kr.SM2EE().Decrypt(nil, in, sm2.ASN1DecrypterOpts)
 					ok = err == nil
 				})
 				return
 			}},
-		{name: "sm2.Decrypt[NIST P-256 key]", small: true, fast: true, der: true,
+		{name: "sm2.Decrypt[NIST-P256-key]", small: true, fast: true, der: true,
 			seeds: []seedT{nistPlain, nistHybrid, nistASN1},
 			call: func(x *cx, in []byte) (ok bool) {
-				x.g("sm2.Decrypt[NIST P-256 key]", func() { _, err := sm2.Decrypt(kr.NISTasSM2(), in); ok = err == nil })
+				x.g("sm2.Decrypt[NIST-P256-key]", func() { _, err := sm2.Decrypt(kr.NISTasSM2(), in); ok = err == nil })
 				return
 			}},
-		{name: "sm2.PrivateKey.Decrypt[NIST P-256 key,C1C2C3]", small: true, fast: true,
+		{name: "sm2.PrivateKey.Decrypt[NIST-P256-key,C1C2C3]", small: true, fast: true,
 			seeds: []seedT{nistC1C2C3},
 			call: func(x *cx, in []byte) (ok bool) {
-				x.g("sm2.PrivateKey.Decrypt[NIST P-256 key,C1C2C3]", func() {
+				x.g("sm2.PrivateKey.Decrypt[NIST-P256-key,C1C2C3]", func() {
 					_, err := kr.NISTasSM2().Decrypt(nil, in, sm2.NewPlainDecrypterOpts(sm2.C1C2C3))
 					ok = err == nil
 				})
 				return
 			}},
-		{name: "sm2.PrivateKey.Decrypt[NIST P-256 key,ASN1 opts]", small: true, fast: true, der: true,
+		{name: "sm2.PrivateKey.Decrypt[NIST-P256-key,ASN1-opts]", small: true, fast: true, der: true,
 			seeds: []seedT{nistASN1},
 			call: func(x *cx, in []byte) (ok bool) {
-				x.g("sm2.PrivateKey.Decrypt[NIST P-256 key,ASN1 opts]", func() {
+				x.g("sm2.PrivateKey.Decrypt[NIST-P256-key,ASN1-opts]", func() {
 					_, err := kr.NISTasSM2().Decrypt(nil, in, sm2.ASN1DecrypterOpts)
 					ok = err == nil
 				})
